@@ -15,6 +15,7 @@ func init() {
 }
 
 func runC01(c *rules.Ctx) {
+	clTickEmptyRules(c)
 	const M = "x/concentrated-liquidity/math."
 	const K = "x/concentrated-liquidity.Keeper."
 	const P = "x/concentrated-liquidity/model.Pool."
